@@ -73,6 +73,12 @@ func (v *objectValidator) feed(jsonLexeme lexeme.LexEvent) ([]validator, bool) {
 	case lexeme.ObjectBegin, lexeme.ObjectKeyBegin, lexeme.ObjectValueEnd:
 		return nil, false
 
+	case lexeme.LiteralBegin, lexeme.LiteralEnd:
+		// `{...} // {nullable: true}` admits null.
+		if isNullAllowed(v.node_, jsonLexeme) {
+			return nil, jsonLexeme.Type() == lexeme.LiteralEnd
+		}
+
 	case lexeme.ObjectKeyEnd:
 		v.feedObjectKeyEnd(jsonLexeme)
 		return nil, false
